@@ -1,9 +1,9 @@
 SPECIFICATION Spec
 CONSTANTS
-  Waiters = {1, 2, 3, 4, 5}
+  Waiters = {1, 2, 3, 4, 5, 6, 7}
   Tables = {"t", "u"}
-  Revs = {0, 1, 2}
-  MaxSteps = 12
+  Revs = {0, 1, 2, 3, 4, 5}
+  MaxSteps = 18
   SweepMode = "fixed"
   Record = TRUE
   Sample = 1
